@@ -156,10 +156,15 @@ def run_case(case):
             rate = [n for n in spec["nodes"] if n["name"] == c["out"]][0]["rate"]
             mn = round(rnd.uniform(0, 0.5) / rate, 4)
             c["delay"] = ["train", round(mn + rnd.uniform(0, 1.0) / rate, 4), mn, round(mn + 1.5 / rate, 4), "zoh"]
+        T = rnd.choice([0.5, 1.0, 2.0, 3.0])
+        if rnd.random() < 0.3:  # a very slow node: exactly one or two steps inside the horizon
+            slow = rnd.choice(spec["nodes"])
+            slow["rate"] = rnd.choice([1, 2]) if T <= 1.0 else 1
+            slow["delay"] = ["det", 0.01]
+            spec["slow_node"] = slow["name"]
         dg = S.digest(spec)
         nodes, sup = S.build(spec, trace="none")
         E = rnd.randint(1, 4)
-        T = rnd.choice([0.5, 1.0, 2.0, 3.0])
         cg = npz(generate_graphs(nodes, ts_max=T, rng=jax.random.PRNGKey(case["spec_seed"]), num_episodes=E))
         st = Counter()
         res = check_graph(cg, nodes, [T] * E, st)
@@ -235,13 +240,19 @@ def run_case(case):
         extra.connect(tgt, window=2, delay_dist=Normal(0.003, 0.001), skip=rnd.random() < 0.3)
         nodes2 = dict(nodes)
         nodes2["zz"] = extra
+        new_edges = {(tgt.name, "zz")}
+        if rnd.random() < 0.6:
+            # the new node also SENDS to an already recorded (ragged, -1 padded) receiver
+            rcv = nodes[rnd.choice(list(nodes))]
+            rcv.connect(extra, window=1, delay_dist=Normal(0.002, 0.0005), skip=True)
+            new_edges.add(("zz", rcv.name))
         pn = npz(cg)
         aug = npz(augment_graphs(cg, nodes2, rng=jax.random.PRNGKey(case["spec_seed"])))
-        expected_edges = set(pn.edges) | {(tgt.name, "zz")}
+        expected_edges = set(pn.edges) | new_edges
         V = check_augment(pn, aug, nodes2, set(nodes2), expected_edges, counters)
         E = len(ex["episodes"])
         tsm = [max(float(onp.asarray(v.ts_end[e]).max()) for v in pn.vertices.values()) for e in range(E)]
-        res = check_graph(aug, nodes2, tsm, Counter(), only_nodes={"zz"}, only_edges={(tgt.name, "zz")})
+        res = check_graph(aug, nodes2, tsm, Counter(), only_nodes={"zz"}, only_edges=new_edges)
         for Ve, _ in res:
             V += Ve
         key = f"{dg}/augment-recorded"
